@@ -110,10 +110,28 @@ class _H2(_H):
 
 
 def _norm_atom(a):
+    if a.startswith("raises(") and "->" in a:
+        # `raises(<statement text> -> Exc)`: the statement is source text (local names): keep what it calls and the exception
+        body, exc = a[len("raises("):].rsplit("->", 1)
+        a = "raises(" + ",".join(re.findall(r"[\w.]+(?=\()", body)) + " -> " + exc.strip()
+    for pat, rep in _canon_forms:
+        a = re.sub(pat, rep, a)
     a = re.sub(r"@\d+", "", a)
     a = re.sub(r"#L\d+", "#L", a)
     a = re.sub(r"#\d+", "#", a)
     return a
+
+
+def _norm_atoms(atoms):
+    """normalised atoms of one path; atoms that become equal (same statement raising at two places) are
+    kept apart by their order of occurrence"""
+    out = {}
+    for k, v in atoms.items():
+        nk = _norm_atom(k)
+        while nk in out:
+            nk += "'"
+        out[nk] = v
+    return out
 
 
 _cache = {}
@@ -386,7 +404,20 @@ def refinement_findings(repo, short, qualname):
     ct, rt = tables(cur_f, ref_f)
     if isinstance(ct, Exception) or isinstance(rt, Exception):
         return []
-    return compare_tables(ct, rt)
+    global _canon_forms
+    _canon_forms = EQUIVALENT_FORMS.get((short, qualname), [])
+    try:
+        return compare_tables(ct, rt)
+    finally:
+        _canon_forms = []
+
+
+# value forms known to be interchangeable in one function (domain knowledge, one line of reason each)
+EQUIVALENT_FORMS = {
+    # distance() is symmetric and zero on the diagonal is never included: the mean over ordered pairs equals the mean over unordered pairs (C07.R4 all-pairs accepts both)
+    ("report", "divergence"): [(r"\b(it|itertools)\.permutations\(", r"\1.combinations(")],
+}
+_canon_forms = []
 
 
 def block_table(stmts, unroll=1, max_paths=4000):
@@ -435,10 +466,10 @@ def compare_tables(ct, rt):
             if findings:
                 return findings
     # case-by-case refinement
-    cur_norm = [({_norm_atom(k): v for k, v in p.atoms.items()}, p) for p in ct]
+    cur_norm = [(_norm_atoms(p.atoms), p) for p in ct]
     reported = set()
     for pr in rt:
-        ra = {_norm_atom(k): v for k, v in pr.atoms.items()}
+        ra = _norm_atoms(pr.atoms)
         cands = [p for a, p in cur_norm if all(a.get(k, v) == v for k, v in ra.items())]
         if not cands:
             continue
@@ -568,12 +599,12 @@ def _res_equiv(pr, pc, ra):
         return True
     if a[0] == b[0] == "return":
         rv, cv = pr.result[1], pc.result[1]
-        for x, y, atoms in ((rv, cv, ra), (cv, rv, {_norm_atom(k): v for k, v in pc.atoms.items()})):
+        for x, y, atoms in ((rv, cv, ra), (cv, rv, _norm_atoms(pc.atoms))):
             if isinstance(x, bool) and hasattr(y, "text"):
                 t = _norm_atom(y.text)
                 if t in atoms and bool(atoms[t]) == x:
                     return True
-                other = {_norm_atom(k): v for k, v in (pc.atoms if atoms is ra else pr.atoms).items()}
+                other = _norm_atoms(pc.atoms if atoms is ra else pr.atoms)
                 if t in other and bool(other[t]) == x:
                     return True
                 if t not in atoms and t not in other:
